@@ -78,3 +78,19 @@ PROPS["C10"] = {
                  "exhaustive_claim": True, "exhaustive_note": "all token sequences of length <= 6 (limits 0,1,2 for length <= 5), per configuration row",
                  "floor_evaluations": 100000000, "fuzz_s": 300},
 }
+
+PROPS["C12"] = {
+    "title": "Numbers survive text: exact integers, bounded error, never a wrong magnitude",
+    "src": "c12.cpp",
+    "level": "exploration",
+    "technique": "property-based testing of number parsing/printing against exact integer arithmetic and glibc strtold with the tolerance bands of the property; stratified (quick) or exhaustive (thorough) sweep of all float32 bit patterns for printing",
+    "rule": "random cases: integer literals around every width/power-of-ten boundary +-40 with 0-30 leading zeros and both signs; decimal literals of 1-3000 digits with the value's decade swept over 1e-5000..1e5000 (emphasis 1e+-38, 1e+-300..330), parsed inside a document when <= 63 characters and through as<T>() on linked and copied strings at any length; printing of floats, doubles (all exponents, notation thresholds) and 64-bit integers. Sweep: every k-th float32 bit pattern (all 2^32 in the thorough tier), every float/double exponent x boundary mantissas, every integer boundary literal. Non-trivial: literal with >= 2 of {fraction, exponent, > 15 digits, leading zeros} or an integer literal; printed value finite and non-zero; distinct by hash of the literal / bit pattern (sweep cases are distinct by construction).",
+    "level_text": "Exploration with an explicit numeric oracle: in-range integer literals must be exact; other literals must lie within 1e-6 (1e-13 when more than seven significant digits are written) of the strtold value inside [1e-300,1e300], and be +-inf / +-0 or within tolerance outside; printed literals must be RFC 8259 numbers within 1e-6*max(1,|x|) (float) or 1e-9*max(1,|x|) (double). The float32 printing space is enumerated completely in the thorough tier.",
+    "level_note": "Trusts glibc strtold (64-bit mantissa, error far below the tolerances). Doubles that a float represents exactly are excluded from the 1e-9 bound by the known finding KF-1 (still checked against 1e-6).",
+    "quick": {"cases": 2500000, "sweep": True, "params": {"float_stride": 1024}, "floor_evaluations": 5000000, "floor_nontrivial": 1000000},
+    "thorough": {"cases": 100000000, "sweep": True, "params": {"all_floats": 1}, "exhaustive_claim": True,
+                 "exhaustive_note": "all 2^32 float32 bit patterns through set(float)+serializeJson", "floor_evaluations": 4000000000},
+}
+
+PROPS["C12"]["regress"] = ["int_2p64", "float_path_overflow", "exponent_early_exit", "long_numeric_string"]
+PROPS["C10"]["regress"] = ["hex_colon", "exponent_early_exit", "top_number_blank"]
